@@ -182,6 +182,8 @@ class Interp:
             return UNIT if ty == '()' else Opaque(('zst', ty))
         if 'hex' in j:
             return self.decode_bytes(bytes.fromhex(j['hex']), ty)
+        if 'ptr' in j:
+            return RefV(Cell(Opaque(('bytes', j.get('pointee_hex', '')[:32])), 'constmem'))
         raise Unsupported('constant %r' % (j,))
 
     def scalar_of_ty(self, ty, v, size):
